@@ -41,8 +41,10 @@ theorem Preserved.withTime {J : World → Prop}
     (mono : ∀ {w : World} (ev' : EvQ) (n : Nat), w.ev.now ≤ ev'.now → J w → J { w with ev := ev', dispatched := n })
     (exec : ∀ w p c, J w → J (execCmd w p c).1)
     (resume : ∀ w p f sig, J w → J (resumeFrame w p f sig).1)
-    (finish : ∀ w p v st, J w → J (finishProc w p v st)) :
+    (finish : ∀ w p v st, J w → J (finishProc w p v st))
+    (clear : ∀ w p (f : Proc → Proc), J w → J (w.modProc p f)) :
     Preserved (fun w => TimeOk w.ev ∧ J w) where
+  clear w p f _ _ h := ⟨h.1, clear w p f h.2⟩
   same hs h := ⟨hs.2.2.2.2.2.2.1 h.1, same hs h.2⟩
   tick he h := ⟨(timeOk_tick h.1 he).1, mono _ _ (timeOk_tick h.1 he).2 h.2⟩
   exec w p c _ h := ⟨(execCmd_fp w p c).2.2.2.2.2.2.1 h.1, exec w p c h.2⟩
@@ -207,6 +209,7 @@ theorem HistBuf.setRecording {w : World} (kind idx : Nat) (on : Bool) (h : HistB
 
 theorem HistBuf.preserved : Preserved (fun w => TimeOk w.ev ∧ HistBuf w) := by
   refine Preserved.withTime (fun hs h => HistBuf.of_eq hs.2.2.1 hs.2.2.2.2.2.1 h) ?_ ?_ ?_ ?_
+    (fun w p f h => HistBuf.of_eq (by simp) (by simp) h)
   · intro w ev' n hle h
     exact ArrAll.mono h (fun x ok => ok.mono _ hle)
   · intro w p c h
